@@ -953,3 +953,27 @@ add("C18", "call-target-rebuilt-from-original-node", "core_codemods/secure_rando
 add("C16", "options-dict-rebuild-skips-unpacked-entries", "core_codemods/jwt_decode_verify.py",
     [("        for element in opts_dict.elements:\n            if is_verify_keyword(element):", "        for element in opts_dict.elements:\n            if isinstance(element, cst.StarredDictElement):\n                continue\n            if is_verify_keyword(element):")],
     "fire", "R-REBUILD-KEEPS-ALL", "_replace_opts_dict")
+
+# --------------------------------------------------------------------------- round 5: memo coherence, parser options
+add("C17", "registry-listing-memoised", REG,
+    [("    @property\n    def codemods(self):\n        return list(self._codemods_by_id.values())",
+      "    @cached_property\n    def codemods(self):\n        return list(self._codemods_by_id.values())"),
+     ("from dataclasses import dataclass\n", "from dataclasses import dataclass\nfrom functools import cached_property\n")],
+    "fire", "R-MEMO-COHERENT", "CodemodRegistry.codemods")
+add("C09", "context-results-memoised-over-growing-dict", CTXF,
+    [("    def get_changesets(self, codemod_name: str) -> list[ChangeSet]:\n", "    @cached_property\n    def all_changesets(self):\n        return [c for cs in self._changesets_by_codemod.values() for c in cs]\n\n    def get_changesets(self, codemod_name: str) -> list[ChangeSet]:\n")],
+    "fire", "R-MEMO-COHERENT", "all_changesets")
+add("C17", "benign-default-include-paths-memoised-from-frozen-input", REG,
+    [("    @property\n    def ids(self):\n        return list(self._codemods_by_id.keys())",
+      "    @cached_property\n    def excluded_by_default(self):\n        return tuple(DEFAULT_EXCLUDED_CODEMODS)\n\n    @property\n    def ids(self):\n        return list(self._codemods_by_id.keys())"),
+     ("from dataclasses import dataclass\n", "from dataclasses import dataclass\nfrom functools import cached_property\n")],
+    "silent")
+add("C17", "parser-reads-response-files", CLI,
+    [("    parser = ArgumentParser(description=\"Run codemods and change code.\")", "    parser = ArgumentParser(description=\"Run codemods and change code.\", fromfile_prefix_chars=\"@\")")],
+    "fire", "R-PARSER-PLAIN", "parse_args")
+add("C20", "parser-does-not-exit-on-error", CLI,
+    [("    parser = ArgumentParser(description=\"Run codemods and change code.\")", "    parser = ArgumentParser(description=\"Run codemods and change code.\", exit_on_error=False)")],
+    "fire", "R-PARSER-PLAIN", "parse_args")
+add("C20", "benign-parser-epilog", CLI,
+    [("    parser = ArgumentParser(description=\"Run codemods and change code.\")", "    parser = ArgumentParser(description=\"Run codemods and change code.\", epilog=\"See the docs.\", allow_abbrev=True)")],
+    "silent")
